@@ -22,7 +22,7 @@ MANIFEST = {
             "dispatch of encoding classes without a class theorem, the opcode tables. Trusted: Lean kernel + bv_decide certificates; "
             "Spec/X86Decode.lean as the reading of the SDM; db/x86.js + tools/gen_c01.py (with its listed database errata); harness/driver/diff.",
 }
-MODS = ["AsmjitVerif.Props.C01", "AsmjitVerif.Props.C01Front", "AsmjitVerif.Props.C01Rows"]
+MODS = ["AsmjitVerif.Props.C01", "AsmjitVerif.Props.C01Front", "AsmjitVerif.Props.C01Rows", "AsmjitVerif.Props.C01Front32", "AsmjitVerif.Props.C01Rows32"]
 BASE = c01_forms.BASE_ADDR
 
 # classes of known, not (yet) repaired findings -> stable keys (known_findings.json)
@@ -35,6 +35,10 @@ KEY_GROUPS = [
 
 
 def key_of(name, reason, form=None):
+    if "gather/scatter without a mask register" in reason:
+        return "evex-gather-scatter-without-mask"
+    if "{z} with a memory destination" in reason:
+        return "evex-z-memory-destination"
     if form and ("address-size prefix 67" in reason or "segment prefixes" in reason) and \
             any(o.get("implicit") and o.get("mem") and not o.get("reg") for o in form.get("operands", [])):
         return "implicit-mem-override-dropped"
@@ -277,7 +281,7 @@ def oracle_crosscheck(res, emits, impl, mon, cidx):
     warn = p.stderr.count("invalid instruction encoding")
     res.coverage["oracle"] = {"tool": mc, "encodings": len(sample), "invalid_by_oracle": warn}
     if warn:
-        res.notes.append("SPEC-SUSPECT: llvm-mc-14 rejects %d of %d encodings the Lean monitor accepted (not analysed further: LLVM 14 lacks the newer extensions and the -mattr list is partial)" % (warn, len(sample)))
+        res.notes.append("SPEC-SUSPECT: llvm-mc-14 rejects %d of %d encodings the Lean monitor accepted (triaged in notes/C01.md round 3: ISA extensions newer than LLVM 14 / 67+VEX2 decoder limitation; the real ones became KF5-KF7)" % (warn, len(sample)))
 
 
 def replay(data):
